@@ -1,12 +1,14 @@
-CONSTANT Users = {"u1", "u2"}
-CONSTANT Sessions = {"s1", "s2"}
-CONSTANT SetPws = {"p1", "p2", ""}
-CONSTANT TryPws = {"p1", "p2", "", "wrong"}
+CONSTANT Users = {"u1"}
+CONSTANT Sessions = {"s1"}
+CONSTANT SetPws = {"p1"}
+CONSTANT TryPws = {}
 CONSTANT Presenters = {1, 2}
 CONSTANT EpochIds = {1, 2, 3, 4, 5}
-CONSTANT MaxSteps = 6
-CONSTANT Ops <- AllOps
+CONSTANT MaxSteps = 11
+CONSTANT Ops <- ConcMixOps
 CONSTANT SessChecksDisabled = TRUE
+CONSTANT RefreshUpserts = FALSE
+CONSTANT InFlightOps = {"DeleteSession"}
 SPECIFICATION Spec
 VIEW view
 INVARIANT PwSound
@@ -17,5 +19,4 @@ INVARIANT SessDisabledCookie
 INVARIANT SessDisabledOneTime
 INVARIANT TypeOK
 INVARIANT ModelTracksTruth
-INVARIANT EpochTracksFresh
 CHECK_DEADLOCK FALSE
